@@ -34,6 +34,9 @@ struct Rec<'a> {
     ints: std::collections::BTreeMap<&'static str, IntObs>,
     boolv: String,
     strv: N,
+    /// the scalar requested as a char: "ok:<c>" | "err"; nchars = code points of the token
+    charv: String,
+    nchars: usize,
     anyv: N,
     f64v: String,
     yaml: &'a str,
@@ -253,6 +256,10 @@ pub fn run(args: &Args) -> i32 {
                         Ok(s) => N::leaf("S", &s),
                         Err(e) => N::errc(&classify(&e)),
                     };
+                    let charv = match fswo::<char>(&text, opts(legacy, strict, noschema)) {
+                        Ok(c) => format!("ok:{c}"),
+                        Err(_) => "err".to_string(),
+                    };
                     let anyv = match fswo::<Tree>(&text, opts(legacy, strict, noschema)) {
                         Ok(Tree(n)) => n,
                         Err(e) => N::errc(&classify(&e)),
@@ -265,7 +272,7 @@ pub fn run(args: &Args) -> i32 {
                     stats.nontrivial += 1;
                     w.put(&Rec {
                         id: format!("t{ti}-{style}-{}-{}{}{}", tag.trim_start_matches('!'), legacy as u8, strict as u8, noschema as u8),
-                        tok, style, tag, legacy, strict, noschema, floatkind: fk, fbits: fb.clone(), ints, boolv, strv, anyv, f64v, yaml: &text,
+                        tok, style, tag, legacy, strict, noschema, floatkind: fk, fbits: fb.clone(), ints, boolv, strv, charv, nchars: tok.chars().count(), anyv, f64v, yaml: &text,
                     });
                 }
             }
